@@ -382,3 +382,20 @@ def _(tag: U8, flags: U8, count: U8):
     ensures(raw == bytes([tag, flags, 0, count]), label="four-bytes-in-order")
     let(back=CmdHeader.from_bytes(raw))
     ensures((back.tag, back.flags, back.reserved, back.params_count) == (tag, flags, 0, count), label="parse-inverts-export")
+
+
+# ---- SDP command packet: the 16 bytes the i.MX ROM reads (big-endian: command, address, format, count, data, reserved) ---------------------------------
+from spsdk.sdp.commands import CmdPacket as SdpCmdPacket, CmdResponse as SdpCmdResponse  # noqa: E402
+
+
+@contract("spsdk.sdp.commands:CmdPacket.to_bytes")
+def _(self: Obj(SdpCmdPacket, tag=U16, address=U32, format=OneOf(0, 8, 16, 32), count=U32, value=U32), padding: OneOf(False, True)) -> bytes:
+    returns(self.tag.to_bytes(2, "big") + self.address.to_bytes(4, "big") + bytes([self.format]) + self.count.to_bytes(4, "big") + self.value.to_bytes(4, "big") + bytes(1),
+            label="command-address-format-count-data-reserved-big-endian")
+    pure()
+
+
+@contract("spsdk.sdp.commands:CmdResponse.value")
+def _(self: Obj(SdpCmdResponse, hab=bool, raw_data=Bytes(lo=4, hi=64))) -> int:
+    returns(int.from_bytes(self.raw_data[0:4], "big"), label="first-word-big-endian-as-sent")
+    pure()
